@@ -103,6 +103,8 @@ def _const_value(j):
         return ct.TimestampType(dt)
     if t == "duration":
         import datetime
+        if "text" in j:
+            return ct.DurationType(ct.StringType(j["text"]))  # built from its text (units down to ns)
         return ct.DurationType(datetime.timedelta(microseconds=j["us"]))
     raise ValueError(j)
 
@@ -214,6 +216,10 @@ def scalar_term(shape, p):
     raise ValueError(shape)
 
 
+def _text_duration(shape):
+    return shape[0] == "const" and shape[1]["t"] == "duration" and "text" in shape[1]
+
+
 def _time_term(shape, p):
     """UTC instant / length in microseconds"""
     if shape[0] == "const":
@@ -238,6 +244,8 @@ def ref_eq(sa, pa, sb, pb):
     if ka == "null":
         return z3.BoolVal(True)
     if ka in ("timestamp", "duration"):
+        if _text_duration(sa) or _text_duration(sb):
+            return None  # text-built durations below the microsecond: only the laws are asserted, no reference value
         return _time_term(sa, pa) == _time_term(sb, pb)  # same instant whatever the written offset / same length
     if ka == "list":
         if len(sa[1]) != len(sb[1]):
@@ -278,6 +286,8 @@ def ref_lt(sa, pa, sb, pb):
         from ..sym.strs import lt_term
         return lt_term(_terms(sa, pa), _terms(sb, pb), True)
     if ka in ("timestamp", "duration"):
+        if _text_duration(sa) or _text_duration(sb):
+            return None
         return _time_term(sa, pa) < _time_term(sb, pb)
     return None
 
